@@ -657,6 +657,28 @@ Proof.
   apply (first_deviation_from dir recs tail Hwf k 0%nat fuel); assumption.
 Qed.
 
+(* ------------------------------------------------------------------ *)
+(* non-vacuity checks by computation                                   *)
+(* ------------------------------------------------------------------ *)
+
+Example roundtrip_ex :
+  read_all 3 true [[1; 2; 3]; []] (mk_reader 0 false) (writer_stream true [[1; 2; 3]; []])
+  = [ROk [1; 2; 3]; ROk []; RErrShort].
+Proof. vm_compute. reflexivity. Qed.
+
+(* one altered byte in the second record: the first record is returned, then
+   an error, then nothing *)
+Example tamper_ex :
+  let s := writer_stream true [[1; 2; 3]; [4]; [5]] in
+  let s' := firstn 40 s ++ Junk :: skipn 41 s in
+  read_all 5 true [[1; 2; 3]; [4]; [5]] (mk_reader 0 false) s'
+  = [ROk [1; 2; 3]; RErrMac; RErrMac; RErrMac; RErrMac].
+Proof. vm_compute. reflexivity. Qed.
+
+(* key rotation: operation 999 is the last use of key 0, operation 1000 uses key 1 nonce 0 *)
+Example rotation_ex : kn_iter 999 (0, 0) = (0, 999) /\ kn_iter 1000 (0, 0) = (1, 0) /\ kn_iter 2001 (0, 0) = (2, 1).
+Proof. vm_compute. repeat split; reflexivity. Qed.
+
 Print Assumptions kn_iter_spec.
 Print Assumptions kn_of_inj.
 Print Assumptions writer_all_sealed.
